@@ -127,6 +127,8 @@ LINE_MENU = [
     "abc,1,2", "1,abc,2", "1d1 2-1 +",
     "#c", "#1,2,3", " #1,2", "C1,2", "c1,2", "abc", " abc", "\tabc", "@x", "A,B,C",
     "", " ", "\t", " \t", "1 \t2", "  ",
+    # space-TAB inside lines that NM-TRAN discards before it looks at items (a comment, an IGNORE=c line, the header)
+    "# \tc", "C \t1", "A \tB,C",
 ]
 ROW_COLS = [
     [["A", False], ["B", False], ["C", False]],
